@@ -23,7 +23,7 @@ def run_c06(ck):
     size (everything / only the TLBs) must refuse the checkpoint with an error."""
     q = ck.tier == "quick"
     binary = ck.binary("vmstack")
-    payload = dict(seed=ck.seed * 31 + 6, stacks=5 if q else 8, accesses=40, max_cuts=6 if q else 0, workers=6 if q else 12)
+    payload = dict(seed=ck.seed * 31 + 6, stacks=5 if q else 10, accesses=40, max_cuts=6 if q else 30, workers=6 if q else 12)
     out = core.harness(binary, "vmckpt_cuts", payload, timeout=1500 if q else 6000)
     ck.cov["traces_validated_against_impl"] += out["cuts"]
     ck.cov["evaluations"] += out["events"]
